@@ -740,6 +740,27 @@ func (m *condModel) notifyAfterWrite() {
 				R.OK("W3", at, pos, fmt.Sprintf("deferred %s of %s registered before the write", usedOp, cd.Name))
 				continue
 			}
+			// a notification issued earlier in the same critical section is as good as a later one: the
+			// woken waiter cannot run before the mutex is released, i.e. after the write (L4 reports an
+			// unlock/re-lock between the two)
+			earlier := false
+			for _, b := range fl.G.Blocks {
+				for _, n := range b.Nodes {
+					if _, isDefer := n.(*ast.DeferStmt); isDefer {
+						continue
+					}
+					if n.End() <= ws.Node.Pos() && notifies(n) && fl.Dominates(n, ws.Node) && m.enclosingGuard(ws.F, n) == nil {
+						if st, ok := m.la.StateAt(ws.F, n); ok && len(st) > 0 || (m.la.res[ws.F] != nil && len(m.la.res[ws.F].reqs) > 0) {
+							earlier = true
+						}
+					}
+				}
+			}
+			if earlier {
+				m.w6(at, pos, cd, usedOp, exKey)
+				R.OK("W3", at, pos, fmt.Sprintf("%s of %s issued before the write in the same critical section", usedOp, cd.Name))
+				continue
+			}
 			cut := func(n ast.Node) bool {
 				if ws.ErrIf != nil && p.inside(n, ws.ErrIf.Body) {
 					return true // the write did not happen on the error branch
